@@ -111,8 +111,14 @@ func runC14(t *rapid.T) {
 			order[i] = denote(n)
 			if src.Types[i] == "enum" {
 				var vals []string
-				for _, v := range fs.Col(n).EnumVals {
-					vals = append(vals, denote(v))
+				base := n
+				for strings.HasSuffix(base, "_cp") && fs.Col(base) == nil {
+					base = strings.TrimSuffix(base, "_cp")
+				}
+				if c := fs.Col(base); c != nil {
+					for _, v := range c.EnumVals {
+						vals = append(vals, denote(v))
+					}
 				}
 				enums[denote(n)] = vals
 			}
@@ -197,7 +203,7 @@ func runC14(t *rapid.T) {
 	}
 	fail := func(kind, msg string) {
 		tr.Detail = msg
-		core.Violation(t, "C14:denotation:"+kind+sigSuffix, msg, tr)
+		core.Violation(t, "C14:denotation:"+kind, msg, tr)
 	}
 	if !expectDelim('[') {
 		fail("shape", "output does not start with an array")
